@@ -355,6 +355,39 @@ func checkService(c ServiceCase) (v ev.Verdict) {
 	}
 	// concurrent clients
 	v.Class("concurrent")
+	// Several clients add one and the same id at the same moment (they
+	// are released together from behind the crew's lock): exactly one of
+	// them may be told that it created the machine.
+	{
+		const n = 6
+		errs := make([]error, n)
+		var dwg sync.WaitGroup
+		s.crew.Lock()
+		for i := 0; i < n; i++ {
+			dwg.Add(1)
+			go func(i int) {
+				defer dwg.Done()
+				errs[i] = s.AddMachine(ctx, "vcounter", "dup", "", match.Bindings{"who": float64(i)})
+			}(i)
+		}
+		time.Sleep(2 * time.Millisecond)
+		s.crew.Unlock()
+		dwg.Wait()
+		created := 0
+		for _, e := range errs {
+			if e == nil {
+				created++
+			}
+		}
+		if created != 1 {
+			v.Failf("%d of %d concurrent requests to add machine \"dup\" were acknowledged as having created it (errors: %v)", created, n, errs)
+			return
+		}
+		if err := s.RemMachine(ctx, "dup"); err != nil {
+			v.Failf("removing \"dup\": %v", err)
+			return
+		}
+	}
 	type ack struct {
 		mid      string
 		from, to float64
